@@ -1,25 +1,26 @@
 #!/bin/sh
 # try_seed.sh <property> <patch.diff> [tier] : run a check against a MUTATED COPY of /repo without touching /repo:
-#   /tmp/mutrepo  = scratch worktree of /repo HEAD with the patch applied
-#   /tmp/mutverif = copy of /verif whose harness, table generator and check point at /tmp/mutrepo
+#   /tmp/mutrepo$T  = scratch worktree of /repo HEAD with the patch applied
+#   /tmp/mutverif = copy of /verif whose harness, table generator and check point at /tmp/mutrepo$T
 set -u
 P=$1; PATCH=$2; TIER=${3:-quick}
-[ -d /tmp/mutrepo ] || git -C /repo worktree add -q --detach /tmp/mutrepo HEAD
-cd /tmp/mutrepo && git checkout -- . && git clean -fdq && git checkout -q --detach $(git -C /repo rev-parse HEAD)
+T=${SEED_TAG:-}   # SEED_TAG=<x> gives this run private copies (/tmp/mutrepo<x>, /tmp/mutverif<x>) so several can run at once
+[ -d /tmp/mutrepo$T ] || git -C /repo worktree add -q --detach /tmp/mutrepo$T HEAD
+cd /tmp/mutrepo$T && git checkout -- . && git clean -fdq && git checkout -q --detach $(git -C /repo rev-parse HEAD)
 git apply "$PATCH" || { echo "patch does not apply"; exit 2; }
-mkdir -p /tmp/mutverif
+mkdir -p /tmp/mutverif$T
 # by default the COMMITTED state of /verif is used (edits in progress there must not disturb a long seed run);
 # TRY_SEED_WORKTREE=1 takes /verif's working tree instead
 if [ -z "${TRY_SEED_WORKTREE:-}" ]; then
-  rm -rf /tmp/mutverif.src && mkdir -p /tmp/mutverif.src && git -C /verif archive HEAD | tar -x -C /tmp/mutverif.src
-  SRC=/tmp/mutverif.src/
+  rm -rf /tmp/mutverif$T.src && mkdir -p /tmp/mutverif$T.src && git -C /verif archive HEAD | tar -x -C /tmp/mutverif$T.src
+  SRC=/tmp/mutverif$T.src/
 else
   SRC=/verif/
 fi
-rsync -a --delete --exclude .git --exclude harness/target --exclude harness/target-nobz --exclude harness-default/target --exclude lean/.lake --exclude work --exclude replays --exclude evidence "$SRC" /tmp/mutverif/
-[ -d /tmp/mutverif/lean/.lake ] || cp -r /verif/lean/.lake /tmp/mutverif/lean/.lake
-cd /tmp/mutverif
-sed -i 's#path = "/repo"#path = "/tmp/mutrepo"#' harness/Cargo.toml harness-default/Cargo.toml
-sed -i 's#^REPO = "/repo"#REPO = "/tmp/mutrepo"#' tools/gen/common.py check
+rsync -a --delete --exclude .git --exclude harness/target --exclude harness/target-nobz --exclude harness-default/target --exclude lean/.lake --exclude work --exclude replays --exclude evidence "$SRC" /tmp/mutverif$T/
+[ -d /tmp/mutverif$T/lean/.lake ] || cp -r /verif/lean/.lake /tmp/mutverif$T/lean/.lake
+cd /tmp/mutverif$T
+sed -i "s#path = \"/repo\"#path = \"/tmp/mutrepo$T\"#" harness/Cargo.toml harness-default/Cargo.toml
+sed -i "s#^REPO = \"/repo\"#REPO = \"/tmp/mutrepo$T\"#" tools/gen/common.py check
 mkdir -p evidence work
 ./check "$P" --tier "$TIER" | cut -c1-300 | grep -v "^TIE-BROKEN" | head -8
